@@ -164,6 +164,11 @@ func (t *tr) expr(e ast.Expr) string {
 			args[i] = t.expr(a)
 		}
 
+		// an immediately applied function literal (defer func() { ... }(), go func() { ... }())
+		if fl, ok := x.Fun.(*ast.FuncLit); ok {
+			return fmt.Sprintf("(GCall %s %s)", q("$closure"), list(append([]string{t.expr(fl)}, args...)))
+		}
+
 		return fmt.Sprintf("(GCall %s %s)", q(t.src(x.Fun)), list(args))
 	case *ast.CompositeLit:
 		var fs []string
